@@ -184,3 +184,32 @@ Example c12_link_nonvacuous :
        EPop 2000; ERet false ODrop]] true in
   wf_case c = true /\ check_case c = true /\ holds_on c = true.
 Proof. vm_compute. repeat split. Qed.
+
+(** Clauses 1 and 2 WITHOUT the representable-range hypothesis: for every
+    frequency 1 Hz..1 THz and every legal history over 64-bit engine times that
+    did not panic ([WrapSafe.run] is [exec] without the range check) — including
+    histories in which ThisTick / NextTick wrap around 2^64 — every tick time is a
+    multiple of the period, tick times are strictly increasing, and no two queued
+    tick events share a time.  (Clauses 3 and 4 are false beyond the range: see
+    [c12_wrap_stops_ticking_witness].) *)
+From Akita Require Import C12.WrapSafe.
+Theorem c12_on_edge_once_per_instant_all_histories : forall f p ops s evs,
+  in_range f -> period f = Some p -> times64 ops ->
+  run f init ops = Some (s, evs) ->
+  Forall (fun t => t mod p = 0) (pops evs) /\ StronglySorted N.lt (pops evs) /\
+  StronglySorted N.lt (pend s).
+Proof.
+  intros f p ops s evs Hf Hp Ht H.
+  destruct (run_safe f p Hf Hp ops init s evs (w_init p) Ht H) as [A [B [_ D]]].
+  split; [exact A|]. split; [exact B|exact (w_sorted p s D)].
+Qed.
+Print Assumptions c12_on_edge_once_per_instant_all_histories.
+
+(** non-vacuity: a 1 GHz history that runs into the wrap (the last re-tick request is dropped) *)
+Example c12_all_histories_nonvacuous :
+  exists s evs,
+    run 1000000000 init [Adv 18446744073709549115; Call KTickLater; Pop; Ret true; Pop; Ret true;
+                         Call KNotifyRecv; Call KTickNow] = Some (s, evs) /\
+    pops evs = [18446744073709550000; 18446744073709551000] /\ pend s = [] /\
+    times64 [Adv 18446744073709549115].
+Proof. do 2 eexists. split; [vm_compute; reflexivity|]. vm_compute. repeat split. Qed.
